@@ -1,14 +1,12 @@
 (* Theory/GlobbingTr.v -- the translators are correct w.r.t. the documented semantics:
-   for every token list and every name without newline,
-     prefix_k . translate k toks . $   matches name   <->   the reference matcher accepts it.
-   Also the two refutations for names containing a newline. *)
+   for every token list and every name,
+     prefix_k . translate k toks . \Z   matches name   <->   the reference matcher accepts it. *)
 From Coq Require Import NArith List Bool Arith Relations Lia.
 From BV Require Import Model.Globbing Theory.GlobbingRe.
 Import ListNotations.
 Local Open Scope N_scope.
 
 Definition notsl (c : N) : bool := negb (c =? cSlash).
-Definition notnl (c : N) : bool := negb (c =? cNL).
 
 (* ------------------------------------------------------------------ *)
 (* the reference matcher, token by token *)
@@ -114,115 +112,104 @@ Proof.
   destruct (N.leb_spec 47 c), (N.leb_spec c 47); simpl; try reflexivity. lia.
 Qed.
 
-(* strings that a match inside the kind's context can run over: no newline, and for the
-   basename kinds no slash (the prefix's lookahead guarantees it) *)
-Definition okc (k : kind) (c : N) : bool := notnl c && (kind_eqb k KFull || notsl c).
+(* strings that a match inside the kind's context can run over: for the basename kinds
+   no slash (the prefix's lookahead guarantees it) *)
+Definition okc (k : kind) (c : N) : bool := kind_eqb k KFull || notsl c.
 Definition okstr (k : kind) (w : str) : Prop := forallb (okc k) w = true.
 
 Lemma okstr_app k a b : okstr k (a ++ b) <-> okstr k a /\ okstr k b.
 Proof. unfold okstr. rewrite forallb_app, andb_true_iff. reflexivity. Qed.
 
-Lemma okstr_nl k w : okstr k w -> forallb notnl w = true.
-Proof.
-  unfold okstr. intros H. apply forallb_forall. intros x Hx.
-  rewrite forallb_forall in H. specialize (H x Hx).
-  unfold okc in H. apply andb_true_iff in H. tauto.
-Qed.
-
 Lemma okstr_base_sl k w : k <> KFull -> okstr k w -> forallb notsl w = true.
 Proof.
   unfold okstr. intros Hk H. apply forallb_forall. intros x Hx.
   rewrite forallb_forall in H. specialize (H x Hx).
-  unfold okc in H. apply andb_true_iff in H. destruct H as [_ H].
-  destruct k; simpl in H; try exact H. contradiction.
+  unfold okc in H. destruct k; simpl in H; try exact H. contradiction.
 Qed.
 
-Lemma okstr_intro k w : forallb notnl w = true -> (k <> KFull -> forallb notsl w = true) -> okstr k w.
+Lemma okstr_intro k w : (k <> KFull -> forallb notsl w = true) -> okstr k w.
 Proof.
-  unfold okstr. intros H1 H2. apply forallb_forall. intros x Hx.
-  rewrite forallb_forall in H1. unfold okc. rewrite (H1 x Hx). simpl.
+  unfold okstr. intros H2. apply forallb_forall. intros x Hx. unfold okc.
   destruct k; simpl; try reflexivity.
   - assert (Hk : KExt <> KFull) by discriminate. specialize (H2 Hk). rewrite forallb_forall in H2. apply H2; exact Hx.
   - assert (Hk : KBase <> KFull) by discriminate. specialize (H2 Hk). rewrite forallb_forall in H2. apply H2; exact Hx.
 Qed.
 
+Lemma forallb_tt (l : str) : forallb (fun _ => true) l = true.
+Proof. induction l; simpl; auto. Qed.
+
+(* inside (?s:...) :  .*  runs over anything *)
 Lemma M_any_star w w' :
-  M (RStar RAny) w w' <-> exists s1, w = s1 ++ w' /\ forallb notnl s1 = true.
+  M (RStar RAny) true w w' <-> exists s1, w = s1 ++ w'.
 Proof.
-  simpl. apply star_char. intros x y. unfold notnl. split.
-  - intros (c & -> & Hc). exists c. rewrite Hc. auto.
-  - intros (c & -> & Hc). exists c. split; [reflexivity|]. apply negb_true_iff; exact Hc.
+  simpl. rewrite (star_char (fun _ => true)).
+  - split; [intros (s1 & H & _); exists s1; exact H|intros (s1 & H); exists s1; split; [exact H|apply forallb_tt]].
+  - intros x y. split.
+    + intros (c & -> & _). exists c. auto.
+    + intros (c & -> & _). exists c. auto.
 Qed.
 
-Lemma M_notsl_star w w' :
-  M (RStar (RSet true [cSlash])) w w' <-> exists s1, w = s1 ++ w' /\ forallb notsl s1 = true.
+Lemma M_notsl_star s w w' :
+  M (RStar (RSet true [cSlash])) s w w' <-> exists s1, w = s1 ++ w' /\ forallb notsl s1 = true.
 Proof.
   simpl. apply star_char. intros x y. split.
   - intros (c & -> & Hc). exists c. rewrite set_notsl in Hc. auto.
   - intros (c & -> & Hc). exists c. rewrite set_notsl. auto.
 Qed.
 
-(* .*/  *)
+(* .*/  inside (?s:...) *)
 Lemma M_dirs w w' :
-  M dirs_re w w' <-> exists d, w = d ++ cSlash :: w' /\ forallb notnl d = true.
+  M dirs_re true w w' <-> exists d, w = d ++ cSlash :: w'.
 Proof.
-  unfold dirs_re. change (M (RCat (RStar RAny) (RChr false cSlash)) w w')
-    with (exists w1, M (RStar RAny) w w1 /\ w1 = cSlash :: w').
+  unfold dirs_re. change (M (RCat (RStar RAny) (RChr false cSlash)) true w w')
+    with (exists w1, M (RStar RAny) true w w1 /\ w1 = cSlash :: w').
   split.
   - intros (w1 & H1 & ->). apply M_any_star in H1. exact H1.
-  - intros (d & -> & Hd). exists (cSlash :: w'). split; [|reflexivity]. apply M_any_star. exists d. auto.
+  - intros (d & ->). exists (cSlash :: w'). split; [|reflexivity]. apply M_any_star. exists d. reflexivity.
 Qed.
 
 Lemma tok_M k t w w1 : okstr k w ->
-  (M (re_of_tok k t) w w1 <-> exists s1, w = s1 ++ w1 /\ tok_lang t s1).
+  (M (re_of_tok k t) false w w1 <-> exists s1, w = s1 ++ w1 /\ tok_lang t s1).
 Proof.
   intros Hok. destruct t as [c|c| | | |neg body]; unfold tok_lang.
   - simpl. split; [intros ->; exists [c]; auto|intros (s1 & -> & ->); reflexivity].
   - simpl. split; [intros ->; exists [c]; auto|intros (s1 & -> & ->); reflexivity].
   - (* TStar *)
     destruct k.
-    + change (re_of_tok KExt TStar) with (RStar RAny). rewrite M_any_star. split.
-      * intros (s1 & -> & Hs). exists s1. split; [reflexivity|].
+    + change (M (re_of_tok KExt TStar) false w w1) with (M (RStar RAny) true w w1). rewrite M_any_star. split.
+      * intros (s1 & ->). exists s1. split; [reflexivity|].
         apply okstr_app in Hok. eapply okstr_base_sl; [|apply Hok]. discriminate.
-      * intros (s1 & -> & Hs). exists s1. split; [reflexivity|]. apply okstr_app in Hok. eapply okstr_nl; apply Hok.
-    + change (re_of_tok KBase TStar) with (RStar RAny). rewrite M_any_star. split.
-      * intros (s1 & -> & Hs). exists s1. split; [reflexivity|].
+      * intros (s1 & -> & Hs). exists s1. reflexivity.
+    + change (M (re_of_tok KBase TStar) false w w1) with (M (RStar RAny) true w w1). rewrite M_any_star. split.
+      * intros (s1 & ->). exists s1. split; [reflexivity|].
         apply okstr_app in Hok. eapply okstr_base_sl; [|apply Hok]. discriminate.
-      * intros (s1 & -> & Hs). exists s1. split; [reflexivity|]. apply okstr_app in Hok. eapply okstr_nl; apply Hok.
+      * intros (s1 & -> & Hs). exists s1. reflexivity.
     + change (re_of_tok KFull TStar) with (RStar (RSet true [cSlash])). apply M_notsl_star.
   - (* TQuest *)
     destruct k.
     + simpl. split.
-      * intros (c & -> & Hc). exists [c]. split; [reflexivity|]. exists c. split; [reflexivity|].
+      * intros (c & -> & _). exists [c]. split; [reflexivity|]. exists c. split; [reflexivity|].
         change (c :: w1) with ([c] ++ w1) in Hok. apply okstr_app in Hok.
         assert (Hk : KExt <> KFull) by discriminate.
         pose proof (okstr_base_sl _ _ Hk (proj1 Hok)) as H. simpl in H. rewrite andb_true_r in H. exact H.
-      * intros (s1 & -> & x & -> & Hx). exists x. split; [reflexivity|].
-        change (([x] ++ w1)) with (x :: w1) in Hok. unfold okstr in Hok. simpl in Hok.
-        apply andb_true_iff in Hok. destruct Hok as [Hc _]. unfold okc in Hc. apply andb_true_iff in Hc.
-        destruct Hc as [Hc _]. unfold notnl in Hc. apply negb_true_iff in Hc. exact Hc.
+      * intros (s1 & -> & x & -> & Hx). exists x. auto.
     + simpl. split.
-      * intros (c & -> & Hc). exists [c]. split; [reflexivity|]. exists c. split; [reflexivity|].
+      * intros (c & -> & _). exists [c]. split; [reflexivity|]. exists c. split; [reflexivity|].
         change (c :: w1) with ([c] ++ w1) in Hok. apply okstr_app in Hok.
         assert (Hk : KBase <> KFull) by discriminate.
         pose proof (okstr_base_sl _ _ Hk (proj1 Hok)) as H. simpl in H. rewrite andb_true_r in H. exact H.
-      * intros (s1 & -> & x & -> & Hx). exists x. split; [reflexivity|].
-        change (([x] ++ w1)) with (x :: w1) in Hok. unfold okstr in Hok. simpl in Hok.
-        apply andb_true_iff in Hok. destruct Hok as [Hc _]. unfold okc in Hc. apply andb_true_iff in Hc.
-        destruct Hc as [Hc _]. unfold notnl in Hc. apply negb_true_iff in Hc. exact Hc.
+      * intros (s1 & -> & x & -> & Hx). exists x. auto.
     + simpl. split.
       * intros (c & -> & Hc). rewrite set_notsl in Hc. exists [c]. split; [reflexivity|]. exists c. auto.
       * intros (s1 & -> & x & -> & Hx). exists x. rewrite set_notsl. auto.
   - (* TDirs *)
-    change (re_of_tok k TDirs) with (ROpt dirs_re).
-    change (M (ROpt dirs_re) w w1) with (M dirs_re w w1 \/ w1 = w). rewrite M_dirs. split.
-    + intros [(d & -> & Hd)| ->].
+    change (M (re_of_tok k TDirs) false w w1) with (M dirs_re true w w1 \/ w1 = w). rewrite M_dirs. split.
+    + intros [(d & ->)| ->].
       * exists (d ++ [cSlash]). rewrite <- app_assoc. split; [reflexivity|]. right. exists d; reflexivity.
       * exists []. auto.
     + intros (s1 & -> & [->|(d & ->)]).
       * right; reflexivity.
-      * left. exists d. rewrite <- app_assoc. split; [reflexivity|].
-        rewrite <- app_assoc in Hok. apply okstr_app in Hok. eapply okstr_nl; apply Hok.
+      * left. exists d. rewrite <- app_assoc. reflexivity.
   - simpl. split.
     + intros (c & -> & Hc). exists [c]. split; [reflexivity|]. exists c. auto.
     + intros (s1 & -> & x & -> & Hx). exists x. auto.
@@ -231,14 +218,14 @@ Qed.
 (* the heart: translate k toks, run inside a context string w, consumes exactly the strings
    the reference matcher accepts *)
 Theorem translate_sem k : forall toks w w', okstr k w ->
-  (M (translate k toks) w w' <-> exists s, w = s ++ w' /\ gm toks s = true).
+  (M (translate k toks) false w w' <-> exists s, w = s ++ w' /\ gm toks s = true).
 Proof.
   induction toks as [|t ts IH]; intros w w' Hok.
   - simpl. split.
     + intros ->. exists []. auto.
     + intros (s & -> & Hs). destruct s; [reflexivity|discriminate].
-  - change (M (translate k (t :: ts)) w w')
-      with (exists w1, M (re_of_tok k t) w w1 /\ M (translate k ts) w1 w').
+  - change (M (translate k (t :: ts)) false w w')
+      with (exists w1, M (re_of_tok k t) false w w1 /\ M (translate k ts) false w1 w').
     split.
     + intros (w1 & H1 & H2). apply (tok_M k t w w1 Hok) in H1. destruct H1 as (s1 & -> & Hl).
       apply okstr_app in Hok. apply (IH _ _ (proj2 Hok)) in H2. destruct H2 as (s2 & -> & Hg).
@@ -312,102 +299,76 @@ Proof.
   apply mem_false_notsl. apply (proj2 (basename_spec name (basename name)) eq_refl).
 Qed.
 
-Lemma notnl_suffix d w : forallb notnl (d ++ w) = true -> forallb notnl w = true.
-Proof. rewrite forallb_app, andb_true_iff. tauto. Qed.
-
-(* (?:.*/)?(?!.*/)  leaves exactly the last component, for names without newline *)
-Lemma prefix_base name w1 : forallb notnl name = true ->
-  (M (prefix_re KBase) name w1 <-> w1 = basename name).
+(* (?s:(?:.*/)?(?!.*/))  leaves exactly the last component *)
+Lemma prefix_base name w1 :
+  M (prefix_re KBase) false name w1 <-> w1 = basename name.
 Proof.
-  intros Hnl. rewrite <- basename_spec.
-  change (M (prefix_re KBase) name w1)
-    with (exists w0, (M dirs_re name w0 \/ w0 = name) /\ (w1 = w0 /\ ~ (exists w2, M dirs_re w0 w2))).
+  rewrite <- basename_spec.
+  change (M (prefix_re KBase) false name w1)
+    with (exists w0, (M dirs_re true name w0 \/ w0 = name) /\ (w1 = w0 /\ ~ (exists w2, M dirs_re true w0 w2))).
   split.
   - intros (w0 & Hd & -> & Hn). split.
     + destruct (mem cSlash w0) eqn:Em; [|reflexivity]. exfalso. apply Hn.
       unfold mem in Em. apply existsb_exists in Em. destruct Em as (x & Hin & Hx). apply N.eqb_eq in Hx. subst x.
-      apply in_split in Hin. destruct Hin as (l1 & l2 & ->). exists l2. apply M_dirs. exists l1. split; [reflexivity|].
-      assert (Hw0 : forallb notnl (l1 ++ cSlash :: l2) = true).
-      { destruct Hd as [Hd| ->]; [|exact Hnl]. apply M_dirs in Hd. destruct Hd as (d & -> & _).
-        replace (d ++ cSlash :: l1 ++ cSlash :: l2) with ((d ++ [cSlash]) ++ (l1 ++ cSlash :: l2)) in Hnl
-          by (rewrite <- app_assoc; reflexivity).
-        eapply notnl_suffix; exact Hnl. }
-      rewrite forallb_app in Hw0. apply andb_true_iff in Hw0. tauto.
-    + destruct Hd as [Hd| ->]; [|left; reflexivity]. apply M_dirs in Hd. destruct Hd as (d & -> & _). right. exists d. reflexivity.
+      apply in_split in Hin. destruct Hin as (l1 & l2 & ->). exists l2. apply M_dirs. exists l1. reflexivity.
+    + destruct Hd as [Hd| ->]; [|left; reflexivity]. apply M_dirs in Hd. destruct Hd as (d & ->). right. exists d. reflexivity.
   - intros [Hm Hd]. exists w1. split; [|split; [reflexivity|]].
-    + destruct Hd as [->|(d & ->)]; [right; reflexivity|]. left. apply M_dirs. exists d. split; [reflexivity|].
-      rewrite forallb_app in Hnl. apply andb_true_iff in Hnl. tauto.
-    + intros (w2 & H2). apply M_dirs in H2. destruct H2 as (d & -> & _).
+    + destruct Hd as [->|(d & ->)]; [right; reflexivity|]. left. apply M_dirs. exists d. reflexivity.
+    + intros (w2 & H2). apply M_dirs in H2. destruct H2 as (d & ->).
       rewrite mem_app, mem_cons, N.eqb_refl, orb_true_r in Hm. discriminate.
-Qed.
-
-Lemma nonl_notnl w : nonl w = true <-> forallb notnl w = true.
-Proof. reflexivity. Qed.
-
-Lemma end_nonl s w2 name : forallb notnl name = true -> name = s ++ w2 -> (w2 = [] \/ w2 = [cNL]) -> w2 = [].
-Proof.
-  intros Hnl -> [->| ->]; [reflexivity|]. rewrite forallb_app in Hnl. apply andb_true_iff in Hnl.
-  destruct Hnl as [_ H]. vm_compute in H. discriminate.
 Qed.
 
 (* ------------------------------------------------------------------ *)
 (* the three kinds *)
 
-Theorem full_correct toks name : nonl name = true ->
-  (hit (prefix_re KFull) (translate KFull toks) name <-> gm toks name = true).
+Theorem full_correct toks name :
+  hit (prefix_re KFull) (translate KFull toks) name <-> gm toks name = true.
 Proof.
-  intros Hnl. apply nonl_notnl in Hnl. rewrite hit_iff.
-  assert (Hok : okstr KFull name) by (apply okstr_intro; [exact Hnl|intros H; contradiction]).
+  rewrite hit_iff.
+  assert (Hok : okstr KFull name) by (apply okstr_intro; intros H; contradiction).
   split.
-  - intros (w1 & w2 & H1 & H2 & H3). simpl in H1. subst w1.
+  - intros (w1 & H1 & H2). simpl in H1. subst w1.
     apply (translate_sem KFull toks _ _ Hok) in H2. destruct H2 as (s & Hs & Hg).
-    pose proof (end_nonl _ _ _ Hnl Hs H3) as ->. rewrite app_nil_r in Hs. subst s. exact Hg.
-  - intros Hg. exists name, []. split; [reflexivity|]. split; [|left; reflexivity].
+    rewrite app_nil_r in Hs. subst s. exact Hg.
+  - intros Hg. exists name. split; [reflexivity|].
     apply (translate_sem KFull toks _ _ Hok). exists name. rewrite app_nil_r. auto.
 Qed.
 
-Theorem base_correct toks name : nonl name = true ->
-  (hit (prefix_re KBase) (translate KBase toks) name <-> gm toks (basename name) = true).
+Theorem base_correct toks name :
+  hit (prefix_re KBase) (translate KBase toks) name <-> gm toks (basename name) = true.
 Proof.
-  intros Hnl. apply nonl_notnl in Hnl. rewrite hit_iff.
-  destruct (basename_suffix name) as (d & Hd).
-  assert (Hnb : forallb notnl (basename name) = true) by (rewrite Hd in Hnl; eapply notnl_suffix; exact Hnl).
-  assert (Hok : okstr KBase (basename name)) by (apply okstr_intro; [exact Hnb|intros _; apply basename_nosl]).
+  rewrite hit_iff.
+  assert (Hok : okstr KBase (basename name)) by (apply okstr_intro; intros _; apply basename_nosl).
   split.
-  - intros (w1 & w2 & H1 & H2 & H3). apply (prefix_base _ _ Hnl) in H1. subst w1.
+  - intros (w1 & H1 & H2). apply prefix_base in H1. subst w1.
     apply (translate_sem KBase toks _ _ Hok) in H2. destruct H2 as (s & Hs & Hg).
-    pose proof (end_nonl _ _ _ Hnb Hs H3) as ->. rewrite app_nil_r in Hs. rewrite Hs. exact Hg.
-  - intros Hg. exists (basename name), []. split; [apply (prefix_base _ _ Hnl); reflexivity|].
-    split; [|left; reflexivity].
+    rewrite app_nil_r in Hs. rewrite Hs. exact Hg.
+  - intros Hg. exists (basename name). split; [apply prefix_base; reflexivity|].
     apply (translate_sem KBase toks _ _ Hok). exists (basename name). rewrite app_nil_r. auto.
 Qed.
 
 Lemma translate_ext toks : translate KExt toks = translate KBase toks.
 Proof. induction toks as [|t ts IH]; simpl; [reflexivity|]. rewrite IH. destruct t; reflexivity. Qed.
 
-(* the extension kind: prefix (?:.*/)?(?!.*/)(?:.*\.) and the translation of pattern[2:]
+(* the extension kind: prefix (?s:(?:.*/)?(?!.*/)(?:.*\.)) and the translation of pattern[2:]
    together mean the basename pattern  * . toks *)
-Theorem ext_correct toks name : nonl name = true ->
-  (hit (prefix_re KExt) (translate KExt toks) name
-   <-> gm (TStar :: TLit cDot :: toks) (basename name) = true).
+Theorem ext_correct toks name :
+  hit (prefix_re KExt) (translate KExt toks) name
+  <-> gm (TStar :: TLit cDot :: toks) (basename name) = true.
 Proof.
-  intros Hnl.
-  rewrite <- (base_correct (TStar :: TLit cDot :: toks) name Hnl).
+  rewrite <- (base_correct (TStar :: TLit cDot :: toks) name).
   rewrite translate_ext. rewrite !hit_iff.
-  change (prefix_re KExt) with (RCat (ROpt dirs_re) (RCat (RNLook dirs_re) (RGrp (RCat (RStar RAny) (RChr true cDot))))).
+  change (translate KBase (TStar :: TLit cDot :: toks))
+    with (RCat (RS (RStar RAny)) (RCat (RChr (special cDot) cDot) (translate KBase toks))).
   split.
-  - intros (w1 & w2 & H1 & H2 & H3).
+  - intros (w1 & H1 & H2).
     destruct H1 as (wa & Ha & wb & Hb & wc & Hc & Hdot).
-    exists wb, w2. split; [exists wa; split; [exact Ha|exact Hb]|]. split; [|exact H3].
-    change (translate KBase (TStar :: TLit cDot :: toks))
-      with (RCat (RStar RAny) (RCat (RChr (special cDot) cDot) (translate KBase toks))).
+    exists wb. split; [exists wa; split; [exact Ha|exact Hb]|].
     exists wc. split; [exact Hc|]. exists w1. split; [exact Hdot|exact H2].
-  - intros (w1 & w2 & H1 & H2 & H3).
+  - intros (w1 & H1 & H2).
     destruct H1 as (wa & Ha & Hb).
-    change (translate KBase (TStar :: TLit cDot :: toks))
-      with (RCat (RStar RAny) (RCat (RChr (special cDot) cDot) (translate KBase toks))) in H2.
     destruct H2 as (wc & Hc & wd & Hdot & H2).
-    exists wd, w2. split; [|split; [exact H2|exact H3]].
+    exists wd. split; [|exact H2].
     exists wa. split; [exact Ha|]. exists w1. split; [exact Hb|]. exists wc. split; [exact Hc|exact Hdot].
 Qed.
 
@@ -430,18 +391,18 @@ Definition pat_hit (p name : str) : Prop :=
   hit (prefix_re (identify p)) (compile (identify p) p) name.
 
 Theorem pattern_correct p name :
-  startswith sRE p = false -> nonl name = true ->
+  startswith sRE p = false ->
   (pat_hit p name <-> glob_match p name = true).
 Proof.
-  intros Hre Hnl. unfold pat_hit, glob_match, identify, compile. rewrite Hre. simpl orb.
+  intros Hre. unfold pat_hit, glob_match, identify, compile. rewrite Hre. simpl orb.
   destruct (mem cSlash p) eqn:Es.
-  - apply full_correct; exact Hnl.
+  - apply full_correct.
   - destruct (startswith [cStar; cDot] p) eqn:Ee.
     + destruct (startswith_2 _ _ _ Ee) as (r & ->).
       change (tokenize KExt (cStar :: cDot :: r)) with (tokB 0 r).
       change (tokenize KBase (cStar :: cDot :: r)) with (tokB 0 (cStar :: cDot :: r)).
-      rewrite tokB_ext. apply ext_correct; exact Hnl.
-    + apply base_correct; exact Hnl.
+      rewrite tokB_ext. apply ext_correct.
+    + apply base_correct.
 Qed.
 
 Lemma wf_pat_not_re p : wf_pat p = true -> startswith sRE p = false.
@@ -451,33 +412,26 @@ Proof.
   apply orb_false_iff in H. tauto.
 Qed.
 
-(* ------------------------------------------------------------------ *)
-(* names with a newline: the statement is false (in both directions) *)
-
 Lemma hit_run pre a w :
-  hit pre a w <-> existsb (fun w1 => existsb eol_ok (run a w1)) (run pre w) = true.
+  hit pre a w <-> existsb (fun w1 => existsb eol_ok (run a false w1)) (run pre false w) = true.
 Proof.
   rewrite hit_iff, existsb_exists. split.
-  - intros (w1 & w2 & H1 & H2 & H3). exists w1. split; [apply run_correct; exact H1|].
-    apply existsb_exists. exists w2. split; [apply run_correct; exact H2|apply eol_ok_iff; exact H3].
+  - intros (w1 & H1 & H2). exists w1. split; [apply run_correct; exact H1|].
+    apply existsb_exists. exists []. split; [apply run_correct; exact H2|reflexivity].
   - intros (w1 & H1 & H2). apply existsb_exists in H2. destruct H2 as (w2 & H2 & H3).
-    exists w1, w2. split; [apply run_correct; exact H1|]. split; [apply run_correct; exact H2|apply eol_ok_iff; exact H3].
+    apply eol_ok_iff in H3. subst w2.
+    exists w1. split; [apply run_correct; exact H1|apply run_correct; exact H2].
 Qed.
 
-(* '*' does not match "x\ny" although the documentation says it matches any characters but '/' *)
-Theorem newline_refuted_star :
-  exists toks name, gm toks (basename name) = true /\ ~ hit (prefix_re KBase) (translate KBase toks) name.
+(* the names that the code before commit 37b5ed8 got wrong (finding C48-newline, repaired):
+   '*' matches "x\ny", 'foo' does not match "foo\n" *)
+Example newline_names_now_right :
+  hit (prefix_re KBase) (translate KBase [TStar]) [120; 10; 121] /\
+  ~ hit (prefix_re KBase) (translate KBase [TLit 102; TLit 111; TLit 111]) [102; 111; 111; 10].
 Proof.
-  exists [TStar], [120; 10; 121]. split; [reflexivity|].
-  rewrite hit_run. vm_compute. discriminate.
-Qed.
-
-(* 'foo' matches "foo\n" *)
-Theorem newline_refuted_eol :
-  exists toks name, gm toks (basename name) = false /\ hit (prefix_re KBase) (translate KBase toks) name.
-Proof.
-  exists [TLit 102; TLit 111; TLit 111], [102; 111; 111; 10]. split; [reflexivity|].
-  rewrite hit_run. vm_compute. reflexivity.
+  split.
+  - apply hit_run. vm_compute. reflexivity.
+  - rewrite hit_run. vm_compute. discriminate.
 Qed.
 
 (* the reference matcher per kind, on tokens *)
@@ -488,11 +442,11 @@ Definition ref_match (k : kind) (toks : list tok) (name : str) : bool :=
   | KExt => gm (TStar :: TLit cDot :: toks) (basename name)
   end.
 
-Theorem translate_correct k toks name : nonl name = true ->
-  (hit (prefix_re k) (translate k toks) name <-> ref_match k toks name = true).
+Theorem translate_correct k toks name :
+  hit (prefix_re k) (translate k toks) name <-> ref_match k toks name = true.
 Proof.
-  intros Hnl. destruct k; simpl ref_match.
-  - apply ext_correct; exact Hnl.
-  - apply base_correct; exact Hnl.
-  - apply full_correct; exact Hnl.
+  destruct k; simpl ref_match.
+  - apply ext_correct.
+  - apply base_correct.
+  - apply full_correct.
 Qed.
